@@ -6,6 +6,7 @@ import (
 	"net/netip"
 	"time"
 
+	"github.com/jech/storrent/peer"
 	"verifharness/fixture"
 	"verifharness/refwire"
 )
@@ -500,6 +501,254 @@ func RunPex(sw *Swarm, rng *rand.Rand) (tr *Tor, stats map[string]int) {
 		}
 		stats["pex_final_checks"]++
 		stats["pex_rounds_seen"] += o.PexRounds
+	}
+	return
+}
+
+// CheckUnchoking is the C16 accounting monitor at a cut: the process-wide count of
+// unchoked peers equals the number of peer actors that are unchoking, and equals the
+// number of connected remotes whose last choke-state message from storrent was Unchoke;
+// the per-peer upload queue is bounded.
+func (sw *Swarm) CheckUnchoking(base int, where string) {
+	if RaceEnabled {
+		return
+	}
+	got := peer.NumUnchoking() - base
+	actors := 0
+	remotes := 0
+	stale := false
+	for _, tr := range sw.Tors {
+		if tr.Killed {
+			continue
+		}
+		pv, ok := tr.Peers()
+		if !ok {
+			sw.C.Inconclusive("reflect: Torrent.peers missing")
+			return
+		}
+		for _, p := range pv {
+			if p.Missing != "" {
+				sw.C.Inconclusive("reflect: Peer." + p.Missing)
+				return
+			}
+			if p.AmUnchoking {
+				actors++
+			}
+			sw.C.R.Max("max:upload_queue", int64(p.UploadQ))
+			if p.UploadQ > 250+8 {
+				cls := "upload-queue-over-cap"
+				sw.Viol("C16", "upload", cls, fmt.Sprintf("a peer's upload queue holds %d requests (cap 250)", p.UploadQ))
+			}
+		}
+		for _, r := range tr.Remotes {
+			if !r.Closed() && !r.isClosedByUs() && !r.StChoking() {
+				remotes++
+			}
+			if !r.Closed() && !r.isClosedByUs() && r.Paused() {
+				stale = true // it has not read everything storrent sent
+			}
+		}
+	}
+	sw.C.Count("unchoke_accounting_cuts", 1)
+	if got != actors {
+		sw.Viol("C16", "unchoke-accounting", "numunchoking-vs-actors "+where, fmt.Sprintf("peer.NumUnchoking() accounts for %d unchoked peers, %d peer actors are unchoking", got, actors))
+	} else if got != remotes && !stale {
+		sw.Viol("C16", "unchoke-accounting", "numunchoking-vs-remotes "+where, fmt.Sprintf("peer.NumUnchoking() accounts for %d unchoked peers, %d connected remotes were last told Unchoke", got, remotes))
+	}
+	if got > 0 {
+		sw.C.Count("unchoke_accounting_cuts_nonzero", 1)
+	}
+}
+
+// RunUpload drives one upload history (C16): the torrent holds verified data,
+// scripted leechers flap interest, request, flood, cancel, stop reading, leave.
+func RunUpload(sw *Swarm, rng *rand.Rand) (tr *Tor, stats map[string]int) {
+	stats = map[string]int{}
+	base := peer.NumUnchoking()
+	g := fixture.RandGeo(rng, 1<<20, []uint32{16 << 10, 32 << 10, 128 << 10})
+	tr = sw.AddTorrent(g, TorOpts{})
+	np := g.NumPieces()
+	var all []int
+	for p := 0; p < np; p++ {
+		if np < 3 || rng.IntN(10) != 0 {
+			all = append(all, p)
+		}
+	}
+	tr.Prefill(all)
+	sw.Cut()
+	newLeech := func() *Remote {
+		opt := RemoteOpts{Fast: rng.IntN(2) == 0, Ext: rng.IntN(2) == 0, Incoming: rng.IntN(2) == 0}
+		r := tr.Connect(opt)
+		if opt.Ext {
+			r.SendExt0(StdExt0(0, 0))
+		}
+		r.HonestAdvert = true
+		if opt.Fast {
+			r.Send(refwire.Msg{Kind: refwire.KHaveNone})
+		}
+		if rng.IntN(4) != 0 {
+			r.Send(refwire.Msg{Kind: refwire.KInterested})
+		}
+		return r
+	}
+	n0 := 1 + rng.IntN(4)
+	if rng.IntN(4) == 0 {
+		n0 = 6 + rng.IntN(7) // more than the five unchoke slots
+	}
+	for i := 0; i < n0; i++ {
+		newLeech()
+	}
+	sw.Cut()
+	sw.CheckUnchoking(base, "at-cut")
+	randReq := func() refwire.Msg {
+		p := rng.IntN(np)
+		b := rng.IntN(g.BlocksIn(p))
+		m := refwire.Msg{Kind: refwire.KRequest, Index: uint32(p), Begin: uint32(b * fixture.Block), Length: uint32(g.BlockLen(p, b))}
+		switch rng.IntN(14) {
+		case 0:
+			m.Length = 0
+			sw.Tag("req-zero-length")
+		case 1:
+			m.Length = uint32(g.PieceSize(p)) + 1 // spans beyond the piece
+			sw.Tag("req-spanning")
+		case 2:
+			m.Index = uint32(np + rng.IntN(3))
+			sw.Tag("req-bad-index")
+		case 3:
+			m.Begin++
+			sw.Tag("req-unaligned")
+		case 4:
+			m.Length = 1 << 17
+			sw.Tag("req-128k")
+		case 5:
+			m.Length = 1 + uint32(rng.IntN(100))
+			sw.Tag("req-tiny")
+		case 6:
+			m.Begin = uint32(g.PieceSize(p))
+			sw.Tag("req-begin-at-end")
+		}
+		return m
+	}
+	live := func() []*Remote {
+		var out []*Remote
+		for _, r := range tr.Remotes {
+			if !r.Closed() && !r.isClosedByUs() {
+				out = append(out, r)
+			}
+		}
+		return out
+	}
+	steps := 30 + rng.IntN(50)
+	var sentReqs []refwire.Msg
+	for s := 0; s < steps; s++ {
+		lv := live()
+		var r *Remote
+		if len(lv) > 0 {
+			r = lv[rng.IntN(len(lv))]
+		}
+		switch x := rng.IntN(100); {
+		case x < 10 && r != nil:
+			if r.weInterested {
+				r.Send(refwire.Msg{Kind: refwire.KNotInterested})
+			} else {
+				r.Send(refwire.Msg{Kind: refwire.KInterested})
+			}
+			r.weInterested = !r.weInterested
+			stats["interest-flap"]++
+		case x < 40 && r != nil:
+			k := 1 + rng.IntN(6)
+			for i := 0; i < k; i++ {
+				m := randReq()
+				r.Send(m)
+				sentReqs = append(sentReqs, m)
+				stats["request"]++
+			}
+		case x < 44 && r != nil: // flood beyond the queue limit
+			k := 260 + rng.IntN(800)
+			sw.Act("%s floods %d requests", r.Name, k)
+			sw.Tag("flood")
+			for i := 0; i < k; i++ {
+				p := rng.IntN(np)
+				b := rng.IntN(g.BlocksIn(p))
+				m := refwire.Msg{Kind: refwire.KRequest, Index: uint32(p), Begin: uint32(b * fixture.Block), Length: uint32(g.BlockLen(p, b))}
+				r.noteRequest(m)
+				if r.write(refwire.Encode(m)) != nil {
+					break
+				}
+			}
+			stats["flood"]++
+		case x < 52 && r != nil && len(sentReqs) > 0: // cancel (present or long gone)
+			m := sentReqs[rng.IntN(len(sentReqs))]
+			m.Kind = refwire.KCancel
+			r.Send(m)
+			stats["cancel"]++
+		case x < 56 && r != nil: // duplicate request
+			m := randReq()
+			r.Send(m)
+			r.Send(m)
+			stats["dup-request"]++
+		case x < 62 && r != nil:
+			r.PauseReading(time.Duration(5+rng.IntN(50)) * time.Second)
+			sw.Tag("congested")
+			stats["congest"]++
+		case x < 68 && r != nil:
+			sw.Act("%s disconnects (stChoking=%v)", r.Name, r.StChoking())
+			r.Close()
+			stats["disconnect"]++
+		case x < 73 && len(tr.Remotes) < 16:
+			newLeech()
+		case x < 78: // evict what is being uploaded, refill later
+			sw.Act("evict all")
+			tr.T.Pieces.Expire(0, nil, func(ix uint32) { tr.T.Have(ix, false) })
+			stats["evict"]++
+		case x < 82:
+			bm := tr.T.Pieces.Bitmap()
+			var miss []int
+			for _, p := range all {
+				if !bm.Get(p) && tr.T.Pieces.PieceEmpty(uint32(p)) {
+					miss = append(miss, p)
+				}
+			}
+			if len(miss) > 0 {
+				tr.Prefill(miss)
+				for _, p := range miss {
+					tr.T.Have(uint32(p), true)
+				}
+				sw.Act("refill %v", miss)
+			}
+		default:
+			d := []time.Duration{300 * time.Millisecond, 2 * time.Second, 2 * time.Second, 25 * time.Second, 65 * time.Second}[rng.IntN(5)]
+			sw.Act("sleep %v", d)
+			time.Sleep(d)
+			stats["sleep"]++
+		}
+		sw.Cut()
+		sw.CheckUnchoking(base, "at-cut")
+		sw.ClearTags()
+		if sw.C.Violated() {
+			return
+		}
+	}
+	// deletion while peers are unchoked
+	unch := 0
+	for _, r := range live() {
+		if !r.StChoking() {
+			unch++
+		}
+	}
+	stats["unchoked_at_kill"] = unch
+	sw.Act("kill torrent with %d unchoked peers", unch)
+	tr.Kill()
+	sw.Cut()
+	time.Sleep(time.Second)
+	sw.Cut()
+	if !RaceEnabled && peer.NumUnchoking() != base {
+		sw.Viol("C16", "unchoke-accounting", "numunchoking-after-deletion", fmt.Sprintf("peer.NumUnchoking() is %d above its level before the torrent existed, after the torrent was deleted", peer.NumUnchoking()-base))
+	}
+	for _, r := range tr.Remotes {
+		for k, v := range r.Counts {
+			stats["recv:"+k] += v
+		}
 	}
 	return
 }
